@@ -396,6 +396,8 @@ func (n *CandidateNode) UpdateFrom(other *CandidateNode, prefs assignPreferences
 		log.Debugf("UpdateFrom, no need to update from myself.")
 		return
 	}
+	// take the new value before this node is cleared: other may contain this node (e.g. .a.b = .a)
+	other = other.Copy()
 	// if this is an empty map or empty array, use the style of other node.
 	if (n.Kind != ScalarNode && len(n.Content) == 0) ||
 		// if the tag has changed (e.g. from str to bool)
